@@ -49,10 +49,10 @@ var (
 
 // SortTable owns the datatype declarations generated so far (in dependency order).
 type SortTable struct {
-	byKey  map[string]*Sort
-	decls  []string // datatype declarations in registration (dependency) order
-	arrays map[string]*Sort
-	sizes  types.Sizes
+	byKey    map[string]*Sort
+	decls    []string // datatype declarations in registration (dependency) order
+	arrays   map[string]*Sort
+	sizes    types.Sizes
 	zeroArrs map[string]bool
 }
 
